@@ -63,8 +63,9 @@ package blockchain
 //@   logged
 //@ extern func github.com/NethermindEth/juno/blockchain/statebackend.StateBackend.RevertHead
 //@   logged as BackendRevertHead
+//@ extern func github.com/NethermindEth/juno/core.GetChainHeight
 //@ func (*Blockchain).RevertHead
-//@   props C09
+//@   props C09, C04
 //@   arith int
 //@   requires b != nil && b.stateBackend != nil && b.cachedFilters != nil
 //@   assigns calls_BackendRevertHead, calls_Reset
